@@ -39,10 +39,19 @@ def main():
             idb = sym_bytes(e, 'id', L)
             xb = sym_bytes(e, 'x', 32)
             yb = sym_bytes(e, 'y', 32)
-            out = e.call_outcome(SM2 + '.ZA', [e.new_slice(idb) if L else e.new_slice([]), e.new_slice(xb), e.new_slice(yb)])
+            ids_, xs_, ys_ = e.new_slice(idb) if L else e.new_slice([]), e.new_slice(xb), e.new_slice(yb)
+            e.store_log = set()
+            out = e.call_outcome(SM2 + '.ZA', [ids_, xs_, ys_])
+            wrote = set(e.store_log)
+            e.store_log = None
             if out.kind == 'panic':
                 return [('ZA.panic', 'ZA panics for id of %d bytes: %s' % (L, out.panic.msg), L)]
             za, err = out.values
+            # ZA = SM3(preimage) must hold whoever else is running: a store into an object that existed before the call (package-level
+            # state, an argument) makes the preimage depend on concurrent callers
+            shared = [o for o in wrote if o < e.global_snapshot[2] or o in (ids_.obj, xs_.obj, ys_.obj)]
+            if shared:
+                return [('ZA.writes-shared', 'ZA writes to package-level state or to an argument (heap object %s): concurrent calls see each other\'s bytes' % str(e.heap[shared[0]][1])[:60], L)]
             if L >= 8192:
                 if err is None:
                     return [('ZA.toolong', 'id of %d bytes (bit length does not fit ENTL) is accepted' % L, L)]
@@ -166,9 +175,36 @@ func TestVerifReplay(t *testing.T) {
 }''' % (go_bytes(idv), '\n\t'.join(stmts))
         return ck.go_test('sm2', src, name='za_%d' % L)
 
+    def replay_za_concurrent():
+        src = '''package sm2
+import ("testing"; "bytes"; "sync")
+func TestVerifReplay(t *testing.T) {
+	const G = 8
+	id := []byte("1234567812345678")
+	xs, ys, want := make([][]byte, G), make([][]byte, G), make([][]byte, G)
+	for i := 0; i < G; i++ {
+		priv := make([]byte, 32); for j := range priv { priv[j] = byte(i*17 + j*3 + 1) }
+		xs[i], ys[i], _ = DerivePublic(priv)
+		want[i], _ = ZA(id, xs[i], ys[i])
+	}
+	var wg sync.WaitGroup
+	for i := 0; i < G; i++ {
+		wg.Add(1)
+		go func(i int) {
+			defer wg.Done()
+			for n := 0; n < 20000; n++ {
+				za, err := ZA(id, xs[i], ys[i])
+				if err != nil || !bytes.Equal(za, want[i]) { t.Errorf("worker %d: ZA under concurrent calls differs from ZA run alone", i); return }
+			}
+		}(i)
+	}
+	wg.Wait()
+}'''
+        return ck.go_test('sm2', src, name='za_concurrent', timeout=600)
+
     for key, fl in sorted(fails.items()):
         Ls = sorted(set(f[2] for f in fl))
-        ok, out, path = replay_za(Ls[0])
+        ok, out, path = replay_za_concurrent() if key == 'ZA.writes-shared' else replay_za(Ls[0])
         if ok is False:
             ck.record('za[' + key + ']', 'violated', '%s; failing id lengths %s' % (fl[0][1], Ls), sample=dict(id_len=Ls[0]))
             ck.violation(key + '@len=' + ','.join(map(str, Ls)), fl[0][1], path)
